@@ -1469,6 +1469,70 @@ impl<R: Read> Deserializer<R> {
 //@@ end
 }
 
+// ================================================================ DescribedAccess: the headers of described composites (the nine performatives, the delivery states, message sections ...)
+/// the element count a list / map header announces, and how many octets the header occupies (constructor included), by the AMQP layout
+pub open spec fn list_header_count(u: Seq<u8>) -> Option<(int, int)> {
+    if u.len() == 0 { None }
+    else if u[0] == 0x45 { Some((0int, 1int)) }
+    else if u[0] == 0xc0 { if u.len() >= 3 { Some((u[2] as int, 3int)) } else { None } }
+    else if u[0] == 0xd0 { if u.len() >= 9 { Some((sp_be32(u.subrange(5, 9)) as int, 9int)) } else { None } }
+    else { None }
+}
+pub open spec fn map_header_count(u: Seq<u8>) -> Option<(int, int)> {
+    if u.len() == 0 { None }
+    else if u[0] == 0xc1 { if u.len() >= 3 { Some((u[2] as int, 3int)) } else { None } }
+    else if u[0] == 0xd1 { if u.len() >= 9 { Some((sp_be32(u.subrange(5, 9)) as int, 9int)) } else { None } }
+    else { None }
+}
+pub struct DescribedAccess<R> { pub de: Deserializer<R>, pub counter: u32, pub field_count: u32 }
+impl<R: Read> DescribedAccess<R> {
+//@@ fn file=serde_amqp/src/de.rs impl=`impl<'a, 'de, R: Read<'de>> DescribedAccess<'a, R>` name=consume_list_header
+//@@ qmark
+//@@ subst `self.as_mut()` => `(&mut self.de)` rule=R30
+//@@ subst `self .as_mut()` => `(&mut self.de)` rule=optional-R30
+//@@ subst `|| Error::unexpected_eof("Expecting format code")` => `|| -> (o: Error) { Error::unexpected_eof("Expecting format code") }` rule=R18
+//@@ subst `|| Error::unexpected_eof("Expecting size")` => `|| -> (o: Error) { Error::unexpected_eof("Expecting size") }` rule=optional-R18
+//@@ subst `|| Error::unexpected_eof("Expecting count")` => `|| -> (o: Error) { Error::unexpected_eof("Expecting count") }` rule=optional-R18
+//@@ subst `u32::from_be_bytes(` => `from_be32(` rule=optional-R9
+//@@ subst `Err(de::Error::custom(__E1))` => `Err(Error::Other)` rule=R11
+//@@ spec
+    requires bounded(old(self).de.reader),
+    ensures
+        final(self).de.reader.wf(), final(self).counter == old(self).counter, final(self).field_count == old(self).field_count,
+        final(self).de.elem_format_code == old(self).de.elem_format_code,
+        r is Ok ==> ({
+            let u = eff_unread(old(self).de);
+            let hdr = if old(self).de.elem_format_code is Some { 1int } else { 0int };
+            &&& list_header_count(u) is Some && r->Ok_0 == list_header_count(u)->Some_0.0                       // [C05.composite.list-header-decoding] [C03.rt.decoder-premise] the field count of a described list (list0 / list8 / list32) is the COUNT field of its header, not the size field
+            &&& final(self).de.reader.unread() =~= old(self).de.reader.unread().skip(list_header_count(u)->Some_0.1 - hdr)   // [C20.composite.header-consumed-exactly] exactly the header is consumed: the first field starts right behind it, and whatever follows the composite (the next message section, a transfer's payload) is found where it is
+        }),
+        old(self).de.reader.reliable() && list_header_count(eff_unread(old(self).de)) is Some ==> r is Ok,       // [C05.composite.every-list-width-accepted] every list width the peer may choose is accepted
+//@@ end
+
+//@@ fn file=serde_amqp/src/de.rs impl=`impl<'a, 'de, R: Read<'de>> DescribedAccess<'a, R>` name=consume_map_header
+//@@ qmark
+//@@ subst `self.as_mut()` => `(&mut self.de)` rule=R30
+//@@ subst `self .as_mut()` => `(&mut self.de)` rule=optional-R30
+//@@ subst `|| Error::unexpected_eof("Expecting format code")` => `|| -> (o: Error) { Error::unexpected_eof("Expecting format code") }` rule=R18
+//@@ subst `|| Error::unexpected_eof("Expecting size")` => `|| -> (o: Error) { Error::unexpected_eof("Expecting size") }` rule=optional-R18
+//@@ subst `|| Error::unexpected_eof("Expecting count")` => `|| -> (o: Error) { Error::unexpected_eof("Expecting count") }` rule=optional-R18
+//@@ subst `u32::from_be_bytes(` => `from_be32(` rule=optional-R9
+//@@ subst `Err(de::Error::custom(__E1))` => `Err(Error::Other)` rule=R11
+//@@ spec
+    requires bounded(old(self).de.reader),
+    ensures
+        final(self).de.reader.wf(), final(self).counter == old(self).counter, final(self).field_count == old(self).field_count,
+        final(self).de.elem_format_code == old(self).de.elem_format_code,
+        r is Ok ==> ({
+            let u = eff_unread(old(self).de);
+            let hdr = if old(self).de.elem_format_code is Some { 1int } else { 0int };
+            &&& map_header_count(u) is Some && r->Ok_0 == map_header_count(u)->Some_0.0                         // [C05.composite.map-header-decoding] [C03.rt.decoder-premise]
+            &&& final(self).de.reader.unread() =~= old(self).de.reader.unread().skip(map_header_count(u)->Some_0.1 - hdr)    // [C20.composite.header-consumed-exactly]
+        }),
+        old(self).de.reader.reliable() && map_header_count(eff_unread(old(self).de)) is Some ==> r is Ok,        // [C05.composite.every-map-width-accepted]
+//@@ end
+}
+
 // ================================================================ round trip of the variable-width primitives: unit SERSTR's postcondition feeds this unit's
 pub proof fn lemma_be32_inverse(x: u32)
     ensures sp_be32(be32(x)) == x, be32(x).len() == 4,
